@@ -395,6 +395,30 @@ func c01Case(c *rig.Ctx) {
 				c.Violate("response-without-counter", "%s", id)
 			}
 		}
+		// an authorised write that the DATA LAYER refuses (a partial write naming an identifier the list does not
+		// hold cannot be applied) is a rejected message: exactly one error result, whatever ack says
+		if class == "write-authorised(count)" {
+			if li := rig.ListByFn(fn); li != nil && len(li.Keys) > 0 && li.AllUint {
+				u := rig.Update{Kind: "partial", SelKey: -1, DelSel: -1, Items: []reflect.Value{li.NewItem(r, 1000+r.Intn(9))}}
+				for _, q := range w.Peers {
+					q.Tap.Take()
+				}
+				mc2 := p.Send(model.CmdClassifierTypeWrite, src, dst, cell.ack, nil, li.Cmd(u))
+				res2 := rig.Classify(p.Tap.Take(), mc2)
+				c.Events(1 + int64(len(res2.All)))
+				c.Count("class:write-refused-by-data-layer->error", 1)
+				classesSeen["write-refused-by-data-layer->error"] = true
+				errs += res2.Errors
+				if got2 := res2.String(); got2 != oneErr || res2.OtherRef > 0 {
+					c.Violate("write-refused-by-data-layer->error/got:"+strings.ReplaceAll(got2, " ", ","), "%s\n then a partial write of an identifier the list does not hold: want %s got %s\n responses: %s", id, oneErr, got2, rig.JS(res2.All))
+				}
+				for _, d := range res2.All {
+					if rig.JS(d.Header.AddressDestination) != rig.JS(src) {
+						c.Violate("response-destination", "%s (refused write)\n response destination %s != request source %s", id, rig.JS(d.Header.AddressDestination), rig.JS(src))
+					}
+				}
+			}
+		}
 		if class == "read-server->reply" && res.Replies == 1 {
 			for _, d := range res.All {
 				if d.Header.CmdClassifier == nil || *d.Header.CmdClassifier != model.CmdClassifierTypeReply || len(d.Payload.Cmd) != 1 {
